@@ -32,6 +32,15 @@ class C04(FprCheck):
         for _ in range(n):
             pool = [rng.choice(refs) for _ in range(rng.randint(2, 3))]
             o = MG.gen_opts(rng)
+            same_mol = rng.random() < 0.5
+            if same_mol:
+                # many conformers of ONE molecule object on one fingerprinter: conformers converge at different
+                # iterations, so conformer-scoped state left over from an earlier run would be visible
+                pool = [dict(rng.choice(refs), scales=[1.0, 0.55, 1.6, 2.4, 0.8])]
+                o["level"] = rng.choice([5, 8, -1])
+                if o["level"] == -1:
+                    o["remove_duplicate_substructs"] = True
+            all_levels = [{"level": k, "bits": None, "mask": []} for k in list(range(0, 10)) + [-1]]
             runs = []
             last = None
             for _ in range(rng.randint(3, 12)):
@@ -44,7 +53,9 @@ class C04(FprCheck):
                     r = {"mol": mi, "conf": rng.randrange(mol.GetNumConformers()), "form": rng.choice(FORMS)}
                     if r["form"] == "mol_only":
                         r["conf"] = 0
-                r = dict(r, queries=MG.gen_queries(rng, o, 1))
+                if same_mol and r["form"] == "conf_only":
+                    r["form"] = rng.choice(["id_mol", "obj_mol"])
+                r = dict(r, queries=all_levels if same_mol else MG.gen_queries(rng, o, 1))
                 self.count("form:" + r["form"])
                 runs.append(r)
                 last = r
